@@ -41,7 +41,7 @@ impl Property for C18 {
         "C18"
     }
     fn cases(&self, tier: Tier) -> u32 {
-        tier.pick(3000, 40_000)
+        tier.pick(30_000, 300_000)
     }
     fn strategy(&self, _tier: Tier) -> BoxedStrategy<Self::Abs> {
         (abs_xz(3, 2, 8, 2000), any::<u64>()).boxed()
